@@ -649,7 +649,7 @@ func concretizeExpo(a AVal, rep int) float64 {
 	case rep == 0 && mod == U-1:
 		v = math.Ldexp(1, int((a.B+1)>>20))
 		if math.IsInf(v, 0) {
-			v = math.MaxFloat64 // top bucket: 2^1024 itself is not a float64
+			v = midpoint(a.B) // top bucket: 2^1024 itself is not a float64 (and MaxFloat64 is too close to it to be decided)
 		}
 	case rep == 2 && mod == U-1:
 		v = math.Nextafter(math.Ldexp(1, int((a.B+1)>>20)), 0)
